@@ -9,13 +9,16 @@ def run(prog, rep, tier):
                   "explicitly raw; a DIE obtained by moving inside the unit (parent lookup, child/sibling iteration, re-wrapping get_die()) carries "
                   "the import chain of the DIE it came from (local provenance dataflow through out-parameters and helper functions); "
                   "O7: value_cu::cmp and value_abbrev_unit::cmp interpreted on abstract units of two Dwarf files that share section offsets: equal "
-                  "iff the same Dwarf_CU, antisymmetric; I1d: value_die::cmp interpreted on pairs of abstract DIEs with the same Dwarf and offset "
+                  "iff the same Dwarf_CU, antisymmetric; I2: root_cache::is_root and parent_cache::find interpreted from source (std::map/vector/lower_bound modelled) on two abstract files sharing offsets, unit roots of any tag (compile, partial, type, skeleton, unknown), four query orders and repeated queries: `?root` holds exactly for the unit DIEs of the DIE's own file, the parent is the stored parent; "
+                  "I1d: value_die::cmp interpreted on pairs of abstract DIEs with the same Dwarf and offset "
                   "whose import histories agree on the part both know (the child producer restarts the chain, the unit producer carries it in full): "
                   "the result is equal at every depth of the chain.")
-    rep.not_decided = ("all other navigation laws of C05 (child/parent inverse, unit entry = entry, reachability by root child*, equality of a DIE "
-                       "reached twice): they quantify over the DIEs of an input file and libdw's answers.")
+    rep.not_decided = ("the navigation laws of C05 as relations between the words on a concrete file (child/parent inverse through the producers, unit entry = entry, "
+                       "reachability by root child*): they quantify over the DIEs of an input file and libdw's answers; decided here are the tables, the import "
+                       "chains and the comparisons those laws rest on.")
     apply(rep, "I1", "cooked DIEs derived inside a unit keep the import chain", r_dw.i1(prog), 10)
     apply(rep, "I1c", "import chain and iterator stack move in lockstep", r_dw.i1c(prog), 2)
+    apply(rep, "I2", "`?root` holds exactly for unit DIEs (any root tag) and the parent table returns the stored parent, per file, in any query order (cache.cc interpreted against an abstract libdw)", r_dw.i2(prog), 2)
     import r_order
     apply(rep, "I1d", "a DIE with partial import history equals itself with full history", r_order.i1d(prog), 1)
     apply(rep, "I1b", "the parent takes context and import chain from the climbing cursor", r_dw.i1b(prog), 1)
